@@ -86,6 +86,7 @@ def run(cx):
     want = {"DeleteDirectory": r"^std::fs::remove_dir_all$", "CreateDirectory": r"^std::fs::create_dir_all$",
             "WriteFile": r"^std::fs::write$", "DeleteFile": r"^std::fs::remove_file$"}
     nxt = blocks_calling(ap, r"Iterator>::next$")
+    cone = owner_cone(fb, [ap.id], crates={"isograph_compiler"})
     for v, pat in want.items():
         if v not in sw["arms"]:
             cx.ob("R18.all-ops-applied", ap.id + "|arm-" + v, False, "variant %s is not handled" % v, ap.loc())
@@ -95,38 +96,48 @@ def run(cx):
             if o != v:
                 others |= reachable_from(ap, tg, stop_blocks=nxt)
         region = reachable_from(ap, sw["arms"][v], stop_blocks=nxt) - others
-        hit = [b for b in region if blk_calls(ap.blocks[b], pat)]
+        lifted = set(lifted_blocks(fb, ap, lambda x, g, pat=pat: not hasattr(x, "rv") and getattr(x, "op", None) == "call" and re.search(pat, x.callee or "") is not None, cone))
+        hit = [b for b in region if b in lifted]
         cx.ob("R18.all-ops-applied", ap.id + "|arm-" + v, bool(hit),
               "the %s operation does not reach the corresponding file-system call" % v, ap.loc())
-    wr = [t for t in ap.calls() if term_calls(t, r"^std::fs::write$")]
+    # the function that performs the write: the applier itself or a private helper only it calls
+    W = None
+    for g in cone_fns(fb, cone):
+        if any(term_calls(t, r"^std::fs::write$") for t in g.calls()):
+            W = g
     creates_parent = False
-    if wr:
+    if W is not None:
+        wr = [t for t in W.calls() if term_calls(t, r"^std::fs::write$")]
         # content written is artifacts[op.idx].file_content
         a = op_place(wr[0].args[1])
-        okc = a is not None and local_flows_from(ap, a.local, lambda d: hasattr(d, "rv") and any(
-            "file_content" in p.fields() for p in d.reads()), 10) is not None
+        is_content = lambda f_: (lambda d: hasattr(d, "rv") and any("file_content" in p.fields() for p in d.reads()))
+        okc = a is not None and local_flows_from(W, a.local, is_content(W), 10) is not None
+        if not okc and a is not None and W is not ap:
+            import samesrc
+            pr = samesrc.producer(W, a.local)
+            if pr[0] == "param":
+                for t in ap.calls():
+                    if t.callee == W.id and op_place(t.args[pr[1] - 1]) is not None:
+                        okc = local_flows_from(ap, op_place(t.args[pr[1] - 1]).local, is_content(ap), 10) is not None
         getc = [t for t in ap.calls() if term_calls(t, r"slice::<impl \[T\]>::get$")]
         okidx = bool(getc) and any(op_place(t.args[1]) is not None and local_flows_from(
             ap, op_place(t.args[1]).local, lambda d: hasattr(d, "rv") and any("idx" in p.fields() for p in d.reads()), 6)
             is not None or (op_place(t.args[1]) is not None and "idx" in op_place(t.args[1]).fields()) for t in getc)
         cx.ob("R18.all-ops-applied", ap.id + "|writes-indexed-content", okc and okidx,
-              "WriteFile must write artifacts[idx].file_content for the index carried by the operation", ap.loc(wr[0].line))
-        # the path written is the operation's path
-        region = reachable_from(ap, sw["arms"].get("WriteFile", 0), stop_blocks=nxt)
-        # the WriteFile arm makes sure the file's directory exists: every path from the arm to fs::write passes
-        # create_dir_all(path.parent()) or the arm where the path has no parent
-        arm = sw["arms"].get("WriteFile")
-        cds = [b for b in region if blk_calls(ap.blocks[b], r"^std::fs::create_dir_all$")]
+              "WriteFile must write artifacts[idx].file_content for the index carried by the operation", W.loc(wr[0].line))
+        # the write makes sure the file's directory exists: every path from the WriteFile arm (or from the helper's
+        # entry) to fs::write passes create_dir_all(path.parent()) or the arm where the path has no parent
+        start = sw["arms"].get("WriteFile") if W is ap else 0
+        region = reachable_from(W, start, stop_blocks=nxt if W is ap else ())
+        cds = [b for b in region if blk_calls(W.blocks[b], r"^std::fs::create_dir_all$")]
         no_parent = []
-        for t in ap.calls():
+        for t in W.calls():
             if term_calls(t, r"path::Path::parent$") and t.bb in region:
-                s2 = switch_on_call_result(ap, t)
+                s2 = switch_on_call_result(W, t)
                 if s2 is not None and "None" in s2["arms"]:
                     no_parent.append(s2["arms"]["None"])
-                    for cb in cds:
-                        a = op_place(ap.blocks[cb].term.args[0])
-        if arm is not None and cds:
-            creates_parent = path_without(ap, arm, [wr[0].bb], cds + no_parent) is None
+        if start is not None and cds:
+            creates_parent = path_without(W, start, [wr[0].bb], cds + no_parent) is None
 
     # ---- R18.parent-exists (recreate_all) ---------------------------------------
     rc = fb.one(r"artifact_content::file_system_state::FileSystemState::recreate_all$")
